@@ -23,6 +23,9 @@ from vf.core.universe import get_universe
 LEVEL = "model_checking"
 NUMBERS = [0, 1, -1, 2, 2**31 - 1, -(2**31)]
 NAMES = ["A", "B", "C"]
+# member names of other shapes: a single leading underscore (what the plugin produces for VERSION_1 ->
+# _1), and names that carry the class name as a prefix next to the bare name (class Kind: KIND_A, A)
+NAME_SETS = [NAMES, ["_1", "_x2", "a_"], ["KIND_A", "A", "KIND_KIND_B"]]
 PROBE = [0, 1, -1, 2, 3, 7, -5, 2**31 - 1, -(2**31), 2**31 - 2]
 
 _MOD = types.ModuleType("vf_c20_enums")
@@ -30,13 +33,16 @@ sys.modules["vf_c20_enums"] = _MOD
 
 
 def definitions():
-    for n in (1, 2, 3):
-        for nums in itertools.product(NUMBERS, repeat=n):
-            yield tuple(zip(NAMES[:n], nums))
+    for names in NAME_SETS:
+        for n in (1, 2, 3):
+            for nums in itertools.product(NUMBERS, repeat=n):
+                yield tuple(zip(names[:n], nums))
 
 
 def make_enum(idx: int, members):
-    name = f"E{idx}"
+    # (the class is called Kind when the member names carry the KIND_ prefix; it is re-registered in
+    # the module for every definition, so pickling finds the current one)
+    name = "Kind" if any(n.startswith("KIND_") for n, _ in members) else f"E{idx}"
     src = f"import betterproto\nclass {name}(betterproto.Enum):\n" + "".join(f"    {n} = {v}\n" for n, v in members)
     exec(compile(src, f"<{name}>", "exec"), _MOD.__dict__)
     return getattr(_MOD, name)
@@ -47,8 +53,22 @@ def nclass(n: int) -> str:
 
 
 def check_definition(idx: int, members, t: Tally) -> List[Violation]:
+    """Guarded: an exception escaping the examination comes from the enum under test."""
+    try:
+        return _check_definition(idx, members, t)
+    except Exception as e:
+        return [Violation(["enum", "definition-unusable", type(e).__name__],
+                          f"enum {dict(members)!r}: {type(e).__name__}: {e}"[:400],
+                          {"part": "A", "members": [list(m) for m in members]})]
+
+
+def _check_definition(idx: int, members, t: Tally) -> List[Violation]:
     out: List[Violation] = []
     shape = f"n{len(members)}" + ("-alias" if len({v for _, v in members}) < len(members) else "")
+    if members[0][0].startswith("_"):
+        shape += "-underscore-names"
+    elif members[0][0].startswith("KIND_"):
+        shape += "-class-prefixed-names"
 
     def bad(oracle: str, detail: str, extra: str = ""):
         out.append(Violation(["enum", oracle, shape] + ([extra] if extra else []),
@@ -114,10 +134,13 @@ def check_definition(idx: int, members, t: Tally) -> List[Violation]:
                 bad("by-name", f"{how}({n}) raised {type(e).__name__}")
                 continue
             t.inc("edges")
-            if m is not E(v):
-                bad("by-name", f"{how}({n}) is not the canonical member for {v}")
-            if m.value != v or m.name != canon_name[v]:
-                bad("by-name", f"{how}({n}) -> {m.name}={m.value}, declared number {v}")
+            try:
+                if m is not E(v):
+                    bad("by-name", f"{how}({n}) is not the canonical member for {v}")
+                if m.value != v or m.name != canon_name[v]:
+                    bad("by-name", f"{how}({n}) -> {m.name}={m.value}, declared number {v}")
+            except Exception as e:
+                bad("by-name", f"{how}({n}) gives {m!r}, unusable as a member: {type(e).__name__}: {e}")
     try:
         mem = E.__members__
         if list(mem.keys()) != [n for n, _ in members]:
